@@ -109,6 +109,14 @@ def huge_real_default_anywhere(T):
     return False
 
 
+def reorder(tree):
+    if isinstance(tree, dict):
+        return dict((k, reorder(tree[k])) for k in reversed(list(tree)))
+    if isinstance(tree, list):
+        return [reorder(x) for x in tree]
+    return tree
+
+
 def check_case(res, T, v, bt=None):
     bt = bt or C.try_build(res, T, v)
     if bt is None:
@@ -138,6 +146,10 @@ def check_case(res, T, v, bt=None):
                     '%s on tree %r' % (ex, tree))
     # ---- arm 2: bare python value + asn1Spec encodes like the value object
     trees = [('derived', B.pytree(T, v))]
+    # a mapping has no order: the same tree with every mapping's keys the other way round
+    rev = reorder(trees[0][1])
+    if repr(rev) != repr(trees[0][1]):
+        trees.append(('derived-reordered', rev))
     if tree is not None and 'type:real' not in feats0:
         # a float does not say whether the REAL is base 2 or base 10: the native tree is only used as an
         # "equivalent" bare value where no REAL is involved
